@@ -1,6 +1,7 @@
 import IPT.Model.Cli
 import IPT.Model.CliDecode
 import IPT.Model.Rng
+import IPT.Thm.C14
 import IPT.Lemmas.Json
 /-
   C19 — the CLI reports what the library computes; saved parameters reproduce it.
@@ -228,6 +229,41 @@ theorem cli_json_decodes_to_library_result (c : ParamsConfig α) (l : List (Int 
     l.map Prod.fst = rangeDates c.startRd c.endRd ∧
     ∀ x ∈ l, prayerTimesDt c.params c.location x.1 none = .ok x.2 :=
   ⟨decode_render l (cliCompute_wf c l h hy), cliCompute_dates c l h⟩
+
+/-- every day number of the common era that chrono can hold with a four-digit year
+    (0001-01-01 .. 9999-12-31, i.e. 1 .. 3 652 059) is rendered without a sign: `DateWf` -/
+theorem dateWf_of_ce (rd : Int) (h1 : 1 ≤ rd) (h2 : rd ≤ 3652059) : DateWf rd := by
+  obtain ⟨_, _, _, _, _, hy⟩ := CivilLemmas.fromRD_valid rd
+  obtain ⟨lo, hi⟩ := CivilLemmas.yearOfRD_spec rd
+  have e1 : toRD ⟨1, 1, 1⟩ = 1 := by decide
+  have e2 : toRD ⟨10000, 1, 1⟩ = 3652060 := by decide
+  unfold DateWf
+  rw [hy]
+  constructor
+  · apply Int.not_lt.mp
+    intro hneg
+    have : yearOfRD rd + 1 ≤ 1 := by omega
+    have := CivilLemmas.yearStart_mono (yearOfRD rd + 1) 1 this
+    omega
+  · apply Int.not_lt.mp
+    intro hneg
+    have : 10000 ≤ yearOfRD rd := by omega
+    have := CivilLemmas.yearStart_mono 10000 (yearOfRD rd) this
+    omega
+
+/-- **C19, first clause, over the property's dates**: for every accepted configuration whose range
+    lies within 0001-01-01 .. 9999-12-31 (the quantifier's 1600..2399 included) the written document
+    decodes to exactly the per-date library results of the range, in order - no hypothesis left
+    about the rendering -/
+theorem cli_json_decodes_ce (c : ParamsConfig α) (l : List (Int × DayTimes))
+    (h : cliCompute c = .ok l) (hs : 1 ≤ c.startRd) (he : c.endRd ≤ 3652059) :
+    decodeRange (renderRange l) = some l ∧
+    l.map Prod.fst = rangeDates c.startRd c.endRd ∧
+    ∀ x ∈ l, prayerTimesDt c.params c.location x.1 none = .ok x.2 := by
+  apply cli_json_decodes_to_library_result c l h
+  intro rd hrd
+  have := (C14.rangeDates_mem c.startRd c.endRd rd).mp hrd
+  exact dateWf_of_ce rd (by omega) (by omega)
 
 end codec
 
